@@ -168,6 +168,8 @@ def _run(case: dict, rng, model, spec: dict, hfeats: list, viols: list, counters
                 viols.append(core.viol(f"rebuilt model has a different parameter value [{label}]", None, name=k, original=float(pa[k]), rebuilt=float(pb[k]), **ctx))
         for _ in range(4):
             st = {v: round(rng.uniform(0.2, 3.0), 3) for v in ref.variables}
+            if _ >= 2:
+                st = {v: rng.choice([0.5, 1.0, 1.5, 2.0]) for v in ref.variables}  # lattice: equalities between quantities hold here
             t = round(rng.uniform(0.0, 3.0), 2)
             a = model.get_args(st, t)
             b = rebuilt.get_args(st, t)
